@@ -109,7 +109,7 @@ uint64_t Runner<A>::constOp(const G &gr, const Model &mo, const sim::Op &op, con
         case 9: {
             if constexpr (kind == SIMPLE || kind == LABELED) {
                 std::unordered_set<VertexIndex> s;
-                for (unsigned i = 0; i < n; ++i) if ((op.b >> i) & 1) s.insert(i);
+                for (unsigned i = 0; i < n; ++i) if ((op.b >> (i % 8)) & 1) s.insert(i); // 8-bit mask repeated over the vertices
                 if (which == 8) {
                     G sub = alg::getSubgraph(gr, s);
                     dg.u64(sub.getSize()); dg.u64(sub.getEdgeNumber());
